@@ -14,7 +14,8 @@ import json, os, re, shutil, subprocess, sys, tempfile
 from concurrent.futures import ThreadPoolExecutor
 
 ENV = dict(os.environ, GOFLAGS='-mod=mod', GOPROXY='off', GOSUMDB='off', GOTOOLCHAIN='local', GOWORK='off')
-SEEDS = '/tmp/seed-out'
+SEEDS = os.environ.get('SEEDS_DIR', '/tmp/seed-out')
+OFFSET = int(os.environ.get('ID_OFFSET', '0'))
 OUT = '/verif/seeded'
 NOBUILD = ('cluster.go', 'allocate.go', 'rpc_api.go', 'util.go', 'cluster_config.go', 'api/rest/', 'cmdutils/', 'cmd/ipfs-cluster-service', 'cmd/ipfs-cluster-follow')
 
@@ -26,7 +27,7 @@ def run(cmd, cwd, timeout=1500):
 
 def confirm(prop, k):
     src = f'{SEEDS}/{prop}/{k}'
-    sid = f'{prop}-{k}'
+    sid = f'{prop}-{int(k) + OFFSET}'
     if not os.path.exists(f'{src}/patch.diff'):
         return sid, None
     patch = open(f'{src}/patch.diff').read()
@@ -130,7 +131,7 @@ def main():
         if not re.fullmatch(r'C\d\d', prop):
             continue
         for k in ('1', '2'):
-            if only and f'{prop}-{k}' not in only and prop not in only:
+            if only and f'{prop}-{int(k) + OFFSET}' not in only and prop not in only:
                 continue
             jobs.append((prop, k))
     with ThreadPoolExecutor(max_workers=int(os.environ.get('SEED_WORKERS', '3'))) as ex:
@@ -140,6 +141,7 @@ def main():
             d = f'{OUT}/{sid}'
             os.makedirs(d, exist_ok=True)
             prop, k = sid.split('-')
+            k = str(int(k) - OFFSET)
             shutil.copy(f'{SEEDS}/{prop}/{k}/patch.diff', f'{d}/patch.diff')
             if os.path.exists(f'{SEEDS}/{prop}/{k}/demo_test.go'):
                 shutil.copy(f'{SEEDS}/{prop}/{k}/demo_test.go', f'{d}/demo_test.go')
